@@ -114,33 +114,65 @@ def collect():
     # C16: what ModbusClientProtocol.dataReceived passes as `unit=` to the framer: the literal 0 (accept the unit of the
     # buffered frame) or something computed (before 0a3302f: read off the chunk)
     d('asyncDataReceivedUnit', 'String', lean_str(async_data_received_unit()))
+    # C16: OBSERVED transaction id allocation of the real managers: (manager, tid before, ids pending, ids issued by
+    # three consecutive getNextTID calls with those ids staying pending)
+    d('asyncTidAlloc', 'List (String × Nat × List Nat × List Nat)',
+      lean_list('(%s, %d, %s, %s)' % (lean_str(k), t, lean_list(str(x) for x in pend), lean_list(str(x) for x in got))
+                for k, t, pend, got in async_tid_alloc()))
     return out
 
 
+def async_tid_alloc():
+    """run the real DictTransactionManager / FifoTransactionManager: set `tid`, register deferred stand-ins under the
+    given ids, call getNextTID three times (registering each id issued, as execute does)"""
+    from pymodbus.transaction import DictTransactionManager, FifoTransactionManager
+    rows = []
+    cases = [(0, []), (5, [6, 7]), (65534, [65535, 0]), (65535, [1]), (9, [10, 11, 12, 14])]
+    for kind, cls in (('dict', DictTransactionManager), ('fifo', FifoTransactionManager)):
+        for tid, pend in cases:
+            m = cls(None)
+            m.tid = tid
+            for k in pend:
+                m.addTransaction(object(), k)
+            got = []
+            for _ in range(3):
+                t = m.getNextTID()
+                got.append(int(t))
+                m.addTransaction(object(), t)
+            rows.append((kind, tid, pend, got))
+    return rows
+
+
 def async_data_received_unit():
-    """ast: the `unit=` argument of the processIncomingPacket call in ModbusClientProtocol.dataReceived:
-    'const:<value>' for a literal, 'computed:<source>' otherwise"""
-    import ast
-    import pymodbus.client.asynchronous.twisted as T
-    tree = ast.parse(open(T.__file__).read())
-    fn = [f for c in tree.body if isinstance(c, ast.ClassDef) and c.name == 'ModbusClientProtocol'
-          for f in c.body if isinstance(f, ast.FunctionDef) and f.name == 'dataReceived'][0]
-    calls = [n for n in ast.walk(fn) if isinstance(n, ast.Call) and getattr(n.func, 'attr', '') == 'processIncomingPacket']
-    if len(calls) != 1:
-        raise RuntimeError('dataReceived: expected exactly one processIncomingPacket call, found %d' % len(calls))
-    kw = [k.value for k in calls[0].keywords if k.arg == 'unit']
-    arg = kw[0] if kw else (calls[0].args[2] if len(calls[0].args) > 2 else None)
-    if arg is None:
-        return 'missing'
-    if isinstance(arg, ast.Constant):
-        return 'const:%r' % (arg.value,)
-    src = ast.unparse(arg)
-    # a plain name: report what is assigned to it in the function
-    if isinstance(arg, ast.Name):
-        for n in ast.walk(fn):
-            if isinstance(n, ast.Assign) and any(getattr(t, 'id', '') == arg.id for t in n.targets):
-                src = ast.unparse(n.value)
-    return 'computed:' + src
+    """observed, not read off the syntax: what ModbusClientProtocol.dataReceived hands the framer as `unit` — on a recording
+    framer, for a whole reply from unit 1, for a first piece shorter than the header and for a later piece whose bytes
+    would read as unit 3.  'const:0' when it is 0 every time (accept the unit of the buffered frame), otherwise
+    'computed:<the units seen>' (before 0a3302f: read off the chunk)"""
+    import warnings
+    with warnings.catch_warnings():
+        warnings.simplefilter('ignore')
+        from pymodbus.client.asynchronous import twisted as T
+    seen = []
+
+    class Recorder(object):
+        def __init__(self, inner):
+            self.inner = inner
+
+        def __getattr__(self, name):
+            return getattr(self.inner, name)
+
+        def processIncomingPacket(self, data, callback, unit=None, **kw):
+            seen.append(unit[0] if isinstance(unit, (list, tuple)) and len(unit) == 1 else unit)
+
+    reply = bytes([0, 1, 0, 0, 0, 5, 1, 3, 2, 0, 77])
+    for chunks in ([reply], [reply[:1], reply[1:]]):
+        p = T.ModbusClientProtocol()
+        p.framer = Recorder(p.framer)
+        for c in chunks:
+            p.dataReceived(c)
+    if seen and all(u == 0 for u in seen):
+        return 'const:0'
+    return 'computed:' + repr(seen)
 
 
 def async_per_instance():
@@ -438,9 +470,10 @@ def client_lock_info(path=None):
         if isinstance(c, ast.ClassDef) and c.name == 'BaseModbusClient':
             for f in c.body:
                 if isinstance(f, ast.FunctionDef) and f.name == 'execute':
+                    # the request goes to the one shared manager (returned directly or through a local)
                     out['via_manager'] = any(
-                        isinstance(x, ast.Return) and x.value is not None and
-                        ast.unparse(x.value).replace(' ', '') == 'self.transaction.execute(request)' for x in ast.walk(f))
+                        isinstance(x, ast.Call) and ast.unparse(x.func).replace(' ', '') == 'self.transaction.execute'
+                        and [ast.unparse(a) for a in x.args] == ['request'] for x in ast.walk(f))
                     body = list(f.body)
                     if body and isinstance(body[0], ast.Expr) and isinstance(getattr(body[0], 'value', None), ast.Constant) \
                             and isinstance(body[0].value.value, str):
